@@ -646,6 +646,10 @@ class MarkdownNormalizer(Renderer):
             # A hard break starts a new output line, so an escaped "1\." right after it still needs
             # its escape (see render_literal).
             self._current_inline_text = ""
+        else:
+            # A soft break separates words like a space does: digits before and after it are
+            # not one number (see render_literal).
+            self._current_inline_text += "\n"
         return "\n" if element.soft else "\\\n"
 
     def render_code_span(self, element: inline.CodeSpan) -> str:
